@@ -20,6 +20,9 @@ pub struct Cfg {
     pub per_prod: u32,
     pub prefill: u32,
     pub fresh_wakers: bool,
+    /// Multi kinds only: listeners created BEFORE the driven ones and dropped again before anything is sent, so the driven listeners do not
+    /// own the stream ids 0.. (position in the live-listener list != stream id)
+    pub predropped: usize,
 }
 impl Cfg {
     pub fn json(&self) -> J {
@@ -27,7 +30,7 @@ impl Cfg {
             .with("streams", J::i(self.streams as i64))
             .with("producers", J::Arr(self.entries.iter().map(|e| J::s(e.name())).collect()))
             .with("events_per_producer", J::i(self.per_prod as i64)).with("prefill", J::i(self.prefill as i64))
-            .with("fresh_wakers", J::Bool(self.fresh_wakers))
+            .with("fresh_wakers", J::Bool(self.fresh_wakers)).with("listeners_created_first_and_dropped_before_the_sends", J::i(self.predropped as i64))
     }
 }
 
@@ -59,7 +62,8 @@ pub fn draw_cfg(rng: &mut Rng, only: Option<&str>) -> Cfg {
         }
     }
     let entries: Vec<Entry> = (0..nprod).map(|_| *rng.pick(&es)).collect();
-    Cfg { kind, n, m, streams, entries, per_prod, prefill, fresh_wakers: rng.chance(1, 3) }
+    let predropped = if kind.is_multi() && kind != Kind::MultiMmap && streams < m && rng.chance(1, 3) { 1 + rng.below((m - streams) as u64) as usize } else { 0 };
+    Cfg { kind, n, m, streams, entries, per_prod, prefill, fresh_wakers: rng.chance(1, 3), predropped }
 }
 
 pub struct RunOut { pub violation: Option<J>, pub stuck: usize, pub parks: u32, pub wakes: u32, pub hash: u64, pub inconclusive: bool }
@@ -68,7 +72,10 @@ pub fn one_run(cfg: &Cfg, rc: &RunCfg, acc: &mut Acc) -> RunOut {
     let total_cap = u32::MAX;
     let Some(ch) = chan::make(cfg.kind, cfg.n, cfg.m, false) else { panic!("no such channel instantiation {:?}", cfg) };
     // the listener set is fixed before anything is sent
+    let early: Vec<_> = (0..cfg.predropped).map(|_| ch.create_stream()).collect();
     let mut strms: Vec<_> = (0..cfg.streams).map(|_| ch.create_stream()).collect();
+    drop(early);
+    if cfg.predropped > 0 { acc.count("runs_whose_listeners_do_not_own_the_first_stream_ids", 1) }
     if rc.lane == Lane::Free { for s in strms.iter_mut() { drive::preregister(s) } }
     let mut accepted: Vec<u64> = Vec::new();
     let mut next_id = 1u64;
